@@ -184,8 +184,10 @@ theorem flushObj_inv {sch : Schema} {w : World} (h : WInv sch w) (o : ObjId) (id
         · exact ⟨keep, rfl, fun _ => rfl, fun _ => rfl⟩
         · split
           · exact ⟨keep, rfl, fun _ => rfl, fun _ => rfl⟩
-          · rename_i t' hu
-            exact ⟨⟨h.committed, dbUpdate_ok h.txn hu, fun e => by cases e⟩, rfl, fun _ => rfl, fun _ => rfl⟩
+          · split
+            · exact ⟨keep, rfl, fun _ => rfl, fun _ => rfl⟩
+            · rename_i t' hu
+              exact ⟨⟨h.committed, dbUpdate_ok h.txn hu, fun e => by cases e⟩, rfl, fun _ => rfl, fun _ => rfl⟩
       · exact ⟨⟨h.committed, h.txn, h.coherent⟩, rfl, fun e => absurd rfl e, fun e => e⟩
   · -- marked_to_delete
     split
@@ -280,14 +282,29 @@ theorem fetch_inv {sch : Schema} {w : World} (h : WInv sch w) (c : Nat) (pk : Ke
         · exact ⟨⟨hf.1.committed, hf.1.txn, hf.1.coherent⟩, hf.2⟩
         · exact ⟨⟨hf.1.committed, hf.1.txn, hf.1.coherent⟩, hf.2⟩
 
-theorem ext_inv {sch : Schema} {w : World} (h : WInv sch w) (r : DbRow) : WInv sch (ext sch w r).1 := by
+theorem ext_inv {sch : Schema} {w : World} (h : WInv sch w) (st : ExtStmt) : WInv sch (ext sch w st).1 := by
   unfold ext
   split
   · exact h
-  · split
-    · exact h
-    · rename_i t' hi
-      have := dbInsert_ok h.committed hi
+  · cases st with
+    | insert r =>
+      simp only
+      split
+      · exact h
+      · rename_i t' hi
+        have := dbInsert_ok h.committed hi
+        exact ⟨this, this, fun _ => rfl⟩
+    | update pk a v =>
+      simp only
+      split
+      · exact h
+      · split
+        · exact h
+        · rename_i t' hu
+          have := dbUpdate_ok h.committed hu
+          exact ⟨this, this, fun _ => rfl⟩
+    | delete pk =>
+      have := dbDelete_ok h.committed pk
       exact ⟨this, this, fun _ => rfl⟩
 
 theorem stepW_inv {sch : Schema} {w : World} (h : WInv sch w) (op : WOp) : WInv sch (stepW sch w op).1 := by
@@ -482,17 +499,40 @@ theorem flushObj_modified_rows {sch : Schema} {w : World} {o : ObjId} {ids : Lis
   | none => simp [hold] at he
   | some old =>
     simp only [hold] at he ⊢
-    cases hu : dbUpdate sch w.txn (updRow (w.sess.obj o) old) with
-    | none => simp [hu] at he
-    | some t' =>
-      simp only
-      refine ⟨old, rfl, ?_⟩
-      intro pk'
-      have hk : (updRow (w.sess.obj o) old).pk = k := show old.pk = k from getRow_pk hold
-      rw [getRow_update hu pk', hk]
-      by_cases e : pk' = k
-      · subst e; simp [hold]
-      · simp [e]
+    split at he
+    · cases he
+    · rename_i hopt
+      rw [if_neg hopt]
+      cases hu : dbUpdate sch w.txn (updRow (w.sess.obj o) old) with
+      | none => simp [hu] at he
+      | some t' =>
+        simp only
+        refine ⟨old, rfl, ?_⟩
+        intro pk'
+        have hk : (updRow (w.sess.obj o) old).pk = k := show old.pk = k from getRow_pk hold
+        rw [getRow_update hu pk', hk]
+        by_cases e : pk' = k
+        · subst e; simp [hold]
+        · simp [e]
+
+/-- the session after a successful save of a modified object -/
+theorem flushObj_modified_sess {sch : Schema} {w : World} {o : ObjId} {ids : List Int} {k : KeyVal}
+    (hst : (w.sess.obj o).status = .modified) (hpk : (w.sess.obj o).pk = some k)
+    (hw : (List.range sch.nattrs).any (w.sess.obj o).wbits = true) (he : (flushObj sch w o ids).err = none) :
+    (flushObj sch w o ids).w.sess = (saveUpdated w.sess o).1 := by
+  unfold flushObj at he ⊢
+  simp only [hst, hpk, hw, if_true] at he ⊢
+  cases hold : getRow w.txn k with
+  | none => simp [hold] at he
+  | some old =>
+    simp only [hold] at he ⊢
+    split at he
+    · cases he
+    · rename_i hopt
+      rw [if_neg hopt]
+      cases hu : dbUpdate sch w.txn (updRow (w.sess.obj o) old) with
+      | none => simp [hu] at he
+      | some t' => rfl
 
 /-- a saved DELETED object: exactly its row disappears -/
 theorem flushObj_deleted_rows {sch : Schema} {w : World} {o : ObjId} {ids : List Int} {k : KeyVal}
@@ -570,7 +610,9 @@ theorem flushObj_sess {sch : Schema} (w : World) (o : ObjId) (ids : List Int) (h
         · exact ⟨hI, rfl, fun _ _ => rfl⟩
         · split
           · exact ⟨hI, rfl, fun _ _ => rfl⟩
-          · exact ⟨saveUpdated_inv hI o, (saveUpdated_frame w.sess o).1, (saveUpdated_frame w.sess o).2⟩
+          · split
+            · exact ⟨hI, rfl, fun _ _ => rfl⟩
+            · exact ⟨saveUpdated_inv hI o, (saveUpdated_frame w.sess o).1, (saveUpdated_frame w.sess o).2⟩
       · exact ⟨saveUpdated_inv hI o, (saveUpdated_frame w.sess o).1, (saveUpdated_frame w.sess o).2⟩
   · split
     · exact ⟨hI, rfl, fun _ _ => rfl⟩
@@ -747,5 +789,199 @@ theorem flushGo_inserts {sch : Schema} (q : List ObjId) (hnd : q.Nodup) (w : Wor
           (by rw [hfr o hop]; exact hst)
         rw [hfr o hop] at this
         exact this
+
+/-! ## 7. the whole queue: updates, deletes, and nothing else -/
+
+/-- the generated ids a save leaves for the rest of the queue are among those it was given -/
+theorem flushObj_ids {sch : Schema} (w : World) (p : ObjId) (ids : List Int) : ∀ i, i ∈ (flushObj sch w p ids).ids → i ∈ ids := by
+  have hins : ∀ pk id ids', (flushInsert sch w p pk id ids').ids = ids' := by
+    intro pk id ids'; unfold flushInsert; split
+    · rfl
+    · split <;> rfl
+  unfold flushObj
+  simp only
+  split
+  · split
+    · rw [hins]; exact fun i h => h
+    · split
+      · split <;> exact fun i h => h
+      · rename_i id r
+        rw [hins]; exact fun i h => List.mem_cons_of_mem _ h
+  · split
+    · exact fun i h => h
+    · split
+      · split
+        · exact fun i h => h
+        · split
+          · exact fun i h => h
+          · split <;> exact fun i h => h
+      · exact fun i h => h
+  · split <;> exact fun i h => h
+  · exact fun i h => h
+
+/-- one successful `_save_()` of `p` touches no row but `p`'s own: any primary key that `p` does not hold and that is not
+    one of the ids the database may generate finds what it found before -/
+theorem flushObj_only_own_row {sch : Schema} (w : World) (p : ObjId) (ids : List Int) (he : (flushObj sch w p ids).err = none)
+    (k : KeyVal) (hk : (w.sess.obj p).pk ≠ some k) (hid : ∀ i, i ∈ ids → k ≠ [i]) :
+    getRow (flushObj sch w p ids).w.txn k = getRow w.txn k := by
+  cases hst : (w.sess.obj p).status with
+  | created =>
+    obtain ⟨k0, hk0, hrows⟩ := flushObj_created_rows hst he
+    rw [hrows k]
+    have : k ≠ k0 := by
+      intro e; subst e
+      rcases hk0 with h | ⟨_, i, r, hids, hki⟩
+      · exact hk h
+      · exact hid i (hids ▸ List.mem_cons_self) hki
+    simp [this]
+  | modified =>
+    cases hpo : (w.sess.obj p).pk with
+    | none => unfold flushObj at he; simp [hst, hpo] at he
+    | some k0 =>
+      have hne : k ≠ k0 := fun e => hk (e ▸ hpo)
+      by_cases hw : (List.range sch.nattrs).any (w.sess.obj p).wbits = true
+      · obtain ⟨old, _, hrows⟩ := flushObj_modified_rows hst hpo hw he
+        rw [hrows k]; simp [hne]
+      · unfold flushObj; simp [hst, hpo, hw]
+  | markedToDelete =>
+    cases hpo : (w.sess.obj p).pk with
+    | none => unfold flushObj at he; simp [hst, hpo] at he
+    | some k0 =>
+      have hne : k ≠ k0 := fun e => hk (e ▸ hpo)
+      rw [flushObj_deleted_rows hst hpo k]; simp [hne]
+  | loaded => unfold flushObj at he; simp [hst] at he
+  | inserted => unfold flushObj at he; simp [hst] at he
+  | updated => unfold flushObj at he; simp [hst] at he
+  | deleted => unfold flushObj at he; simp [hst] at he
+  | cancelled => unfold flushObj at he; simp [hst] at he
+
+/-- the whole loop touches only the rows of the queued objects (and of generated ids) -/
+theorem flushGo_other_rows {sch : Schema} (q : List ObjId) (w : World) (ids : List Int) (sv : Bool) (hI : Inv sch w.sess)
+    (w' : World) (sv' : Bool) (hg : flushGo sch q w ids sv = (w', none, sv'))
+    (k : KeyVal) (hk : ∀ p, p ∈ q → (w.sess.obj p).pk ≠ some k) (hid : ∀ i, i ∈ ids → k ≠ [i]) (hnd : q.Nodup) :
+    getRow w'.txn k = getRow w.txn k := by
+  induction q generalizing w ids sv with
+  | nil => simp only [flushGo, Prod.mk.injEq] at hg; rw [← hg.1]
+  | cons p q ih =>
+    have hp : p ∉ q := (List.nodup_cons.mp hnd).1
+    unfold flushGo at hg
+    simp only at hg
+    cases he : (flushObj sch w p ids).err with
+    | some e => simp [he] at hg
+    | none =>
+      simp only [he] at hg
+      obtain ⟨hI1, _, hfr⟩ := flushObj_sess w p ids hI
+      have h1 := flushObj_only_own_row w p ids he k (hk p List.mem_cons_self) hid
+      have h2 := ih (flushObj sch w p ids).w (flushObj sch w p ids).ids (sv || (flushObj sch w p ids).saved) hI1 hg
+        (fun x hx => by
+          have hxp : x ≠ p := fun e => hp (e ▸ hx)
+          rw [hfr x hxp]; exact hk x (List.mem_cons_of_mem _ hx))
+        (fun i hi => hid i (flushObj_ids w p ids i hi)) (List.nodup_cons.mp hnd).2
+      exact h2.trans h1
+
+theorem saveUpdated_result (s : Sess) (o : ObjId) (ho : o < s.n) (hst : (s.obj o).status = .modified) :
+    ((saveUpdated s o).1.obj o).pk = (s.obj o).pk ∧ ((saveUpdated s o).1.obj o).status = .updated := by
+  unfold saveUpdated
+  have h1 : ¬ o ≥ s.n := Nat.not_le_of_lt ho
+  simp [h1, hst]
+
+/-- a loop that ended well only met objects with pending writes (`created` / `modified` / `marked_to_delete`): each still holds its key -/
+theorem flushGo_pending {sch : Schema} (q : List ObjId) (hnd : q.Nodup) (w : World) (ids : List Int) (sv : Bool) (hI : Inv sch w.sess)
+    (w' : World) (sv' : Bool) (hg : flushGo sch q w ids sv = (w', none, sv')) :
+    ∀ x, x ∈ q → (w.sess.obj x).status.holdsPk = true := by
+  induction q generalizing w ids sv with
+  | nil => intro x hx; cases hx
+  | cons p q ih =>
+    have hp : p ∉ q := (List.nodup_cons.mp hnd).1
+    unfold flushGo at hg
+    simp only at hg
+    cases he : (flushObj sch w p ids).err with
+    | some e => simp [he] at hg
+    | none =>
+      simp only [he] at hg
+      obtain ⟨hI1, _, hfr⟩ := flushObj_sess w p ids hI
+      intro x hx
+      rcases List.mem_cons.mp hx with e | hxq
+      · subst e
+        cases hst : (w.sess.obj x).status <;> first | rfl | (unfold flushObj at he; simp [hst] at he)
+      · have hxp : x ≠ p := fun e => hp (e ▸ hxq)
+        have := ih (List.nodup_cons.mp hnd).2 _ _ _ hI1 hg x hxq
+        rwa [hfr x hxp] at this
+
+/-- NO UPDATE IS LOST and NO DELETE COMES BACK: per queued object, relative to the row the session's connection saw before -/
+theorem flushGo_updates_deletes {sch : Schema} (q : List ObjId) (hnd : q.Nodup) (w : World) (ids : List Int) (sv : Bool) (hI : Inv sch w.sess)
+    (hq : ∀ o, o ∈ q → o < w.sess.n) (w' : World) (sv' : Bool) (hg : flushGo sch q w ids sv = (w', none, sv'))
+    (o : ObjId) (ho : o ∈ q) (k : KeyVal) (hpk : (w.sess.obj o).pk = some k) :
+    ((w.sess.obj o).status = .modified → (List.range sch.nattrs).any (w.sess.obj o).wbits = true →
+        ∃ old, getRow w.txn k = some old ∧ getRow w'.txn k = some (updRow (w.sess.obj o) old)) ∧
+    ((w.sess.obj o).status = .markedToDelete → (∀ i, i ∈ ids → k ≠ [i]) → getRow w'.txn k = none) := by
+  induction q generalizing w ids sv with
+  | nil => cases ho
+  | cons p q ih =>
+    have hp : p ∉ q := (List.nodup_cons.mp hnd).1
+    have hnd' := (List.nodup_cons.mp hnd).2
+    unfold flushGo at hg
+    simp only at hg
+    cases he : (flushObj sch w p ids).err with
+    | some e => simp [he] at hg
+    | none =>
+      simp only [he] at hg
+      obtain ⟨hI1, hn1, hfr⟩ := flushObj_sess w p ids hI
+      have hq1 : ∀ y, y ∈ q → y < (flushObj sch w p ids).w.sess.n := fun y hy => hn1 ▸ hq y (List.mem_cons_of_mem _ hy)
+      rcases List.mem_cons.mp ho with e | hoq
+      · subst e
+        have hon := hq o List.mem_cons_self
+        constructor
+        · intro hst hw
+          obtain ⟨old, hold, hrows⟩ := flushObj_modified_rows hst hpk hw he
+          -- after its own save `o` is `updated` and still holds `k`: the rest of the queue keeps the row
+          have hso : (flushObj sch w o ids).w.sess.obj o = (saveUpdated w.sess o).1.obj o := by
+            rw [flushObj_modified_sess hst hpk hw he]
+          obtain ⟨su1, su2⟩ := saveUpdated_result w.sess o hon hst
+          obtain ⟨a, _⟩ := flushGo_keeps_row q _ _ _ hI1 hq1 w' sv' hg o (hn1 ▸ hon) hp k
+            (by rw [hso, su1]; exact hpk) (by rw [hso, su2]; rfl)
+          exact ⟨old, hold, by rw [a, hrows k]; simp⟩
+        · intro hst hid
+          have h1 : getRow (flushObj sch w o ids).w.txn k = none := by
+            rw [flushObj_deleted_rows hst hpk k]; simp
+          -- no other queued object holds `k` (they all held their keys together with `o` at the start)
+          have hrest := flushGo_other_rows q _ _ _ hI1 w' sv' hg k
+            (fun x hx => by
+              have hxo : x ≠ o := fun e => hp (e ▸ hx)
+              rw [hfr x hxo]
+              intro hxk
+              have hx' := hq x (List.mem_cons_of_mem _ hx)
+              have hsx : (w.sess.obj x).status.holdsPk = true := by
+                have := flushGo_pending q hnd' _ _ _ hI1 w' sv' hg x hx
+                rwa [hfr x hxo] at this
+              have a := hI.pk_complete x k hx' hxk hsx
+              rw [hI.pk_complete o k hon hpk (by rw [hst]; rfl)] at a
+              exact hxo (Option.some.inj a).symm)
+            (fun i hi => hid i (flushObj_ids w o ids i hi)) hnd'
+          rw [hrest]; exact h1
+      · have hop : o ≠ p := fun e => hp (e ▸ hoq)
+        have := ih hnd' (flushObj sch w p ids).w (flushObj sch w p ids).ids (sv || (flushObj sch w p ids).saved) hI1 hq1 hg hoq
+          (by rw [hfr o hop]; exact hpk)
+        rw [hfr o hop] at this
+        have hon := hq o (List.mem_cons_of_mem _ hoq)
+        constructor
+        · intro hst hw
+          obtain ⟨old, hold, hnew⟩ := this.1 hst hw
+          have hkeep := flushObj_keeps_row w p ids hI (hq p List.mem_cons_self) he o hon hop k hpk (by rw [hst]; rfl)
+          exact ⟨old, hkeep ▸ hold, hnew⟩
+        · intro hst hid
+          exact this.2 hst (fun i hi => hid i (flushObj_ids w p ids i hi))
+
+/-- what a `commit()` that returned normally did, in terms of the loop: the committed table is the session's view after the loop -/
+theorem commit_ok_flushGo {sch : Schema} {w : World} {ids : List Int} (hm : w.modified = true) (hp : w.pendingSaved = false)
+    (hc : (stepW sch w (.commit ids)).2 = none) :
+    ∃ w' sv, flushGo sch w.sess.queue w ids false = (w', none, sv) ∧ (stepW sch w (.commit ids)).1.committed = w'.txn := by
+  simp only [stepW, commit, flush, hp, hm, Bool.false_eq_true, if_false, Bool.not_true] at hc ⊢
+  cases hg : flushGo sch w.sess.queue w ids false with
+  | mk w' r =>
+    obtain ⟨e, sv⟩ := r
+    cases e with
+    | some e => simp [hg] at hc
+    | none => exact ⟨w', sv, rfl, by simp⟩
 
 end PonyVerif.Model.KeyDb
